@@ -2,7 +2,8 @@
 enumerated by TLC out of specs/StmtShapes.tla, and runs them on real SQLite engines.
 
 A shape travels as its name  "k|f|c|w|d|o"  (StmtShapes!Name):
-  k  sel | orm | ins | upd | del | lam | ddl | txt    statement kind (ddl: CREATE TABLE d; txt: TextualSelect, o = named | pos)
+  k  sel | orm | ins | upd | del | lam | ddl | txt | typ    statement kind (ddl: CREATE TABLE d; txt: TextualSelect, o = named | pos;
+                                                            typ: typed construct c = cast | tcoerce | literal | bind with type o in TYPES)
   f  a | join | outer | s1 | xjoin              FROM: a / a JOIN b / a LEFT JOIN b / s1.a / a JOIN s1.a
   c  none | eq | in | eqand | orin              criteria (lam: lscalar | llist | lcol | ltab | lmulti | lwhere | lcrit | lexpr)
   w  none | subq | cte | union | exists         wrapping
@@ -12,6 +13,7 @@ A valuation is the dict printed by the spec: a, b (0 = None), l (list), n (limit
 
 Nothing here decides a property: expected values always come from the TLC output; this module only constructs and observes.
 """
+import decimal
 import os
 import sqlite3
 import warnings
@@ -66,6 +68,18 @@ def world():
     return _WORLD
 
 
+# types that differ from Numeric(10) / String() in exactly ONE constructor argument: absent vs falsy (0, False) vs truthy
+TYPES = {"n10": lambda: sa.Numeric(10), "n10_0": lambda: sa.Numeric(10, 0), "n10_2": lambda: sa.Numeric(10, 2),
+         "n10_f": lambda: sa.Numeric(10, asdecimal=False), "n10_d0": lambda: sa.Numeric(10, decimal_return_scale=0),
+         "s": lambda: sa.String(), "s0": lambda: sa.String(0), "s5": lambda: sa.String(5)}
+
+
+def value_class(v):
+    if isinstance(v, decimal.Decimal):
+        return "dec%d" % -v.as_tuple().exponent
+    return type(v).__name__
+
+
 def none0(v):
     return None if v == 0 else v
 
@@ -109,6 +123,22 @@ def lam_expr(a, crit):
     return sa.lambda_stmt(lambda: sa.select(a.c.id, a.c.x).where(crit))
 
 
+def lam_chain3(a, col, v, w, n):
+    # only the FIRST link's closure holds a structural value (col); links 2 and 3 hold literals
+    s = sa.lambda_stmt(lambda: sa.select(a.c.id, a.c.x).where(col == v))
+    s += lambda s: s.where(a.c.y != w)
+    s += lambda s: s.order_by(a.c.id).limit(n)
+    return s
+
+
+def lam_chain4(a, col, v, w, lst, n):
+    s = sa.lambda_stmt(lambda: sa.select(a.c.id, a.c.x).where(col == v))
+    s += lambda s: s.where(a.c.y != w)
+    s += lambda s: s.where(a.c.id.in_(lst))
+    s += lambda s: s.order_by(a.c.id).limit(n)
+    return s
+
+
 def lam_crit(v):
     return sa.select(A).options(with_loader_criteria(A, lambda cls: cls.x == v))
 
@@ -136,6 +166,14 @@ def build_lambda(sh, val, T):
         return lam_where(a, lst, b), sa.select(a.c.id, a.c.x).where(a.c.y == b).where(a.c.x.in_(lst))
     if c == "lcrit":
         return lam_crit(v), sa.select(A).where(A.x == v)
+    if c == "lchain3":
+        col = a.c[val["col"]]
+        return (lam_chain3(a, col, v, b, val["n"]),
+                sa.select(a.c.id, a.c.x).where(col == v).where(a.c.y != b).order_by(a.c.id).limit(val["n"]))
+    if c == "lchain4":
+        col = a.c[val["col"]]
+        return (lam_chain4(a, col, v, b, lst, val["n"]),
+                sa.select(a.c.id, a.c.x).where(col == v).where(a.c.y != b).where(a.c.id.in_(lst)).order_by(a.c.id).limit(val["n"]))
     if c == "lexpr":
         # the closure holds a finished SQL expression with an embedded literal (its bound value is extracted from the closure element)
         return lam_expr(a, a.c.x == v), sa.select(a.c.id, a.c.x).where(a.c.x == v)
@@ -170,6 +208,19 @@ def build(sh, val, T=None):
     a = T("s1") if f == "s1" else T(None)
     if k == "ddl":
         return sa.schema.CreateTable(w.dtabs[a.schema])
+    if k == "typ":
+        T = TYPES[o]()
+        bval = none0(val["b"])
+        crit = a.c.y == bval
+        if c == "cast":
+            return sa.select(a.c.id, sa.cast(a.c.x, T)).where(crit)
+        if c == "tcoerce":
+            return sa.select(a.c.id, sa.type_coerce(a.c.x, T)).where(crit)
+        if c == "literal":
+            return sa.select(a.c.id, sa.literal(val["n"], T)).where(crit)
+        if c == "bind":
+            return sa.select(a.c.id, a.c.x).where(a.c.y == sa.bindparam(None, bval, type_=T))
+        raise ValueError(c)
     if k == "txt":
         # the column names in the text (q, r) match none of the columns given: only positional matching finds them
         t = sa.text("select id as q, x as r from a" + (" where x = :a" if c == "eq" else "") + " order by id")
@@ -316,7 +367,7 @@ def is_orm(sh):
 def run(conn, log, sh, stmt, opts):
     """execute inside a transaction that is always rolled back; -> dict(out, stmts=[(sql, params, hit)], rows, rc)"""
     n0 = len(log.items)
-    out, rows, rc, lk = "ok", None, -1, "-"
+    out, rows, rc, lk, tv = "ok", None, -1, "-", "-"
     try:
         try:
             if sh["k"] == "ddl":
@@ -337,6 +388,9 @@ def run(conn, log, sh, stmt, opts):
                 if r.returns_rows:
                     raw = r.all()
                     rows = [tuple(x) for x in raw]
+                    if sh["k"] == "typ":
+                        cl = sorted({value_class(x[1]) for x in raw if x[1] is not None})
+                        tv = cl[0] if len(cl) == 1 else ("-" if not cl else "mixed " + "/".join(cl))
                     if sh["k"] == "txt" and raw:
                         try:
                             lk = "ok" if raw[0]._mapping[world().b.c.z] == raw[0][1] else "wrong value"
@@ -352,7 +406,7 @@ def run(conn, log, sh, stmt, opts):
             out = type(e).__name__
     finally:
         conn.rollback()
-    return dict(out=out, stmts=[(s_, tuple(p_), h_) for s_, p_, h_ in log.items[n0:]], rows=rows, rc=rc, lk=lk)
+    return dict(out=out, stmts=[(s_, tuple(p_), h_) for s_, p_, h_ in log.items[n0:]], rows=rows, rc=rc, lk=lk, tv=tv)
 
 
 def run_literal(conn, sh, stmt, smap):
